@@ -62,6 +62,14 @@ CONFIGS = [{"flat": f, "gzip": g, "compresslevel": lv}
            for f in (False, True) for g in (False, True) for lv in (1, 9)]
 
 
+def worker_init():
+    # environment variables that tools commonly honour are set (reproducible-build time
+    # stamp, a non-default locale): the guarantees do not depend on them
+    import os
+    os.environ.setdefault("SOURCE_DATE_EPOCH", "1700000000")
+    os.environ.setdefault("LC_ALL", "C")
+
+
 def gen_cases(tier, seed):
     rnd = random.Random(f"C12:{seed}")
     n = 1500 if tier == "quick" else 40000
@@ -145,16 +153,30 @@ def run_case(case):
     from neuroglancer_scripts import file_accessor, sharded_file_accessor
     from neuroglancer_scripts.accessor import DataAccessError
     rnd = random.Random(case["hseed"])
-    top = tempfile.mkdtemp(prefix="c12-")
+    top = None
+    if case["hseed"] % 6 == 0:
+        # the dataset lives on another file system than TMPDIR
+        from harness import shardlib
+        top = shardlib.other_filesystem_dir("c12-")
+    on_other_fs = top is not None
+    top = top or tempfile.mkdtemp(prefix="c12-")
     # the dataset directory itself is spelled in several legal ways (spaces, non-ASCII,
     # a literal percent sign) so that the URL forms below have something to decode
     base = os.path.join(top, rnd.choice(["dataset", "dataset", "data set", "d\u00e4ta-\u8133",
                                          "a%41b", "x+y=z", "atlas;v2", "a,b&c", "it's(1)@h"]))
-    if rnd.random() < 0.2:
+    r_ = rnd.random()
+    if r_ < 0.2:
         # the dataset directory is reached through a symbolic link
         real = os.path.join(top, "real-location")
         os.mkdir(real)
         os.symlink(real, base)
+    elif r_ < 0.3:
+        # ... or spelled with ".." after a symbolic link to a directory elsewhere: the
+        # operating system follows the link first ($SCRATCH/../shared/ds)
+        os.makedirs(os.path.join(top, "store", "area"))
+        os.symlink(os.path.join(top, "store", "area"), os.path.join(top, "link"))
+        base = os.path.join(top, "link", "..", os.path.basename(base))
+        os.mkdir(base)
     else:
         os.mkdir(base)
     sentinel = os.path.join(top, "secret")
@@ -164,6 +186,8 @@ def run_case(case):
     kind = case["kind"]
     obs = {"histories": 1, "ops": {}, "audits": 0, "overwrite_refusals": 0,
            "payloads_over_64KiB": 0, "symlinked_dataset_directory": int(os.path.islink(base)),
+           "datasets_on_another_file_system_than_TMPDIR": int(on_other_fs),
+           "dataset_spelled_with_dotdot_after_a_symlink": int(os.sep + ".." + os.sep in base),
            "cross_config_reads": 0, "escape_attempts": 0, "escape_refused": 0,
            "kinds": {kind: 1}, "fs_calls_seen_during_escapes": 0, "gz_files_audited": 0,
            "configs": {f"{kind}:{int(cfg['flat'])}{int(cfg['gzip'])}": 1}}
